@@ -1,9 +1,345 @@
-//! C13: not built yet.
-use crate::out::Out;
-use serde_json::Value;
+//! C13 - pointer inference never excludes values that can occur at runtime.
+//!
+//! Generates single-function programs (pigen.rs), runs the REAL pipeline on each - control flow
+//! graph, `compute_function_signatures`, `pointer_inference::run` with the "Memory" section of the
+//! shipped config.json, exactly as `pipeline/results.rs` / `caller/src/main.rs` do - and records ONE
+//! case per program (one ndjson line) for the TLA+ monitor spec/PiMonitor.tla:
+//!
+//!   blocks     the function's blocks (irenc.rs), entry block first
+//!   sp, physregs, le, seed   the environment of the IR reference machine (spec/IR.tla)
+//!   abs        per block: {"has": a state exists at the BlkStart node,
+//!                          "regs": VsaResult::eval_at_node(BlkStart, Var(r)) for every r of physregs,
+//!                                  as DataDom records (domenc.rs); [] when there is no state}
+//!   endstate   per block: a state exists at the BlkEnd node
+//!   ids        the identifier environment: every abstract identifier occurring in `abs` with its
+//!              MECHANICAL classification read off the identifier itself:
+//!                k = "stack"      AbstractLocation::Register(stack pointer), time = the function
+//!                k = "reg"        AbstractLocation::Register(r), time = the function        (reg = r)
+//!                k = "stackparam" AbstractLocation::Pointer(stack pointer, Location{offset,size}) (off, size)
+//!                k = "unknown"    anything else (nested parameters, global memory, path hints ...)
+//!   inits      initial register files (every register of physregs)
+//!   raw        lossless serde form of the program (replay input; ignored by TLC)
+//!   sameid_succ  FEATURE TAG per block, only used to classify a reported violation as the known
+//!              finding (never to decide): the block is a jump target of a block whose branch condition
+//!              contains an ==/!= comparison whose two sides evaluate (at that BlkEnd) to the same
+//!              unique abstract identifier for which the state holds NO memory object
+//!   negstride_succ  FEATURE TAG per block (same purpose): the block is a jump target of a block whose
+//!              branch condition mentions a variable that evaluates (at that BlkEnd) to a value whose
+//!              absolute part is an interval with stride >= 2 and a NEGATIVE start
+//!   widesub_succ  FEATURE TAG per block (same purpose): the block is a jump target of a block whose
+//!              branch condition contains a Subpiece (low byte 0) of an expression whose value at that
+//!              BlkEnd is purely absolute and does NOT fit into the subpiece's size
+//!
+//! Programs whose pointer-inference log contains "Fixpoint did not stabilize" are outside the
+//! property's precondition: skipped and counted.  The harness decides nothing.
+use crate::domenc;
+use crate::enc::{bv_u64};
+use crate::irenc;
+use crate::irgen;
+use crate::out::{catch, Out};
+use crate::pigen;
+use crate::rng::Rng;
+use cwe_checker_lib::abstract_domain::{AbstractIdentifier, AbstractLocation, AbstractMemoryLocation};
+use cwe_checker_lib::analysis::graph::{get_program_cfg, Node};
+use cwe_checker_lib::analysis::interprocedural_fixpoint_generic::NodeValue;
+use cwe_checker_lib::analysis::pointer_inference::Data;
+use cwe_checker_lib::analysis::vsa_results::VsaResult;
+use cwe_checker_lib::intermediate_representation::*;
+use cwe_checker_lib::pipeline::AnalysisResults;
+use serde_json::{json, Value};
+use std::collections::BTreeMap;
+use std::panic::AssertUnwindSafe;
 
-pub fn gen(_out: &mut Out, _sub: &str) {}
+/// The "Memory" section of the shipped configuration file (what `caller/src/main.rs` passes).
+fn memory_config() -> Value {
+    let src = std::env::var("CWE_CHECKER_SRC").unwrap_or_else(|_| "/repo/src".to_string());
+    let text = std::fs::read_to_string(format!("{}/config.json", src)).expect("config.json of the repository");
+    let cfg: Value = serde_json::from_str(&text).expect("config.json");
+    cfg["Memory"].clone()
+}
 
-pub fn replay(_run: &[Value], _sub: &str) -> Vec<Value> {
-    Vec::new()
+fn id_name(id: &AbstractIdentifier) -> String {
+    format!("{}", id)
+}
+
+/// mechanical classification of an identifier (see module comment)
+fn classify(id: &AbstractIdentifier, sub: &Tid, sp: &Variable) -> Value {
+    let name = id_name(id);
+    let unknown = json!({"id": name, "k": "unknown", "reg": "", "off": 0, "size": 0});
+    if id.get_tid() != sub || !id.get_path_hints().is_empty() {
+        return unknown;
+    }
+    match id.get_location() {
+        AbstractLocation::Register(v) if v == sp => json!({"id": name, "k": "stack", "reg": v.name, "off": 0, "size": u64::from(v.size)}),
+        AbstractLocation::Register(v) => json!({"id": name, "k": "reg", "reg": v.name, "off": 0, "size": u64::from(v.size)}),
+        AbstractLocation::Pointer(v, AbstractMemoryLocation::Location { offset, size }) if v == sp && offset.abs() < (1 << 20) => {
+            json!({"id": name, "k": "stackparam", "reg": v.name, "off": offset, "size": u64::from(*size)})
+        }
+        _ => unknown,
+    }
+}
+
+fn eq_subexprs<'a>(e: &'a Expression, out: &mut Vec<(&'a Expression, &'a Expression)>) {
+    match e {
+        Expression::BinOp { op, lhs, rhs } => {
+            if matches!(op, BinOpType::IntEqual | BinOpType::IntNotEqual) {
+                out.push((lhs, rhs));
+            }
+            eq_subexprs(lhs, out);
+            eq_subexprs(rhs, out);
+        }
+        Expression::UnOp { arg, .. } | Expression::Cast { arg, .. } | Expression::Subpiece { arg, .. } => eq_subexprs(arg, out),
+        _ => (),
+    }
+}
+
+fn subpieces_of<'a>(e: &'a Expression, out: &mut Vec<(&'a Expression, ByteSize)>) {
+    match e {
+        Expression::Subpiece { low_byte, size, arg } => {
+            if *low_byte == ByteSize::new(0) {
+                out.push((arg, *size));
+            }
+            subpieces_of(arg, out);
+        }
+        Expression::BinOp { lhs, rhs, .. } => {
+            subpieces_of(lhs, out);
+            subpieces_of(rhs, out);
+        }
+        Expression::UnOp { arg, .. } | Expression::Cast { arg, .. } => subpieces_of(arg, out),
+        _ => (),
+    }
+}
+
+fn vars_of<'a>(e: &'a Expression, out: &mut Vec<&'a Variable>) {
+    match e {
+        Expression::Var(v) => out.push(v),
+        Expression::BinOp { lhs, rhs, .. } => {
+            vars_of(lhs, out);
+            vars_of(rhs, out);
+        }
+        Expression::UnOp { arg, .. } | Expression::Cast { arg, .. } | Expression::Subpiece { arg, .. } => vars_of(arg, out),
+        _ => (),
+    }
+}
+
+pub struct Recorded {
+    pub case: Option<Value>,
+    pub not_stabilized: bool,
+    pub panic: String,
+}
+
+/// Run the real pipeline on `program` and project the result (see module comment).
+pub fn analyze(program: &Term<Program>, inits: &Value, seed: u64, index: u64, mem_cfg: &Value) -> Recorded {
+    let project = irgen::project_of(program.clone());
+    let sub_tid = pigen::sub_tid();
+    let r = catch(AssertUnwindSafe(|| {
+        let graph = get_program_cfg(&project.program);
+        let binary: Vec<u8> = Vec::new();
+        let results = AnalysisResults::new(&binary, &graph, &project);
+        let (fn_sigs, _logs) = results.compute_function_signatures();
+        let results = results.with_function_signatures(Some(&fn_sigs));
+        let pi = results.compute_pointer_inference(mem_cfg, false);
+        let not_stabilized = pi.collected_logs.0.iter().any(|m| m.text.contains("Fixpoint did not stabilize"));
+        if not_stabilized {
+            return (None, true);
+        }
+        let sub = &project.program.term.subs[&sub_tid];
+        let physregs: Vec<Variable> = project.register_set.iter().cloned().collect();
+        let g = pi.get_graph();
+        let mut start_of: BTreeMap<Tid, petgraph::graph::NodeIndex> = BTreeMap::new();
+        let mut end_of: BTreeMap<Tid, petgraph::graph::NodeIndex> = BTreeMap::new();
+        for n in g.node_indices() {
+            match g[n] {
+                Node::BlkStart(b, _) => { start_of.insert(b.tid.clone(), n); }
+                Node::BlkEnd(b, _) => { end_of.insert(b.tid.clone(), n); }
+                _ => (),
+            }
+        }
+        let mut ids: BTreeMap<String, Value> = BTreeMap::new();
+        let mut abs = Vec::new();
+        let mut endstate = Vec::new();
+        let mut sameid_succ: BTreeMap<Tid, bool> = BTreeMap::new();
+        let mut negstride_succ: BTreeMap<Tid, bool> = BTreeMap::new();
+        let mut widesub_succ: BTreeMap<Tid, bool> = BTreeMap::new();
+        let mut nontrivial_regs = 0u64;
+        for b in &sub.term.blocks {
+            let n = start_of[&b.tid];
+            let mut regs = Vec::new();
+            let mut has = true;
+            for r in &physregs {
+                match pi.eval_at_node(n, &Expression::Var(r.clone())) {
+                    Some(d) => {
+                        let d: Data = d;
+                        for id in d.referenced_ids() {
+                            ids.entry(id_name(id)).or_insert_with(|| classify(id, &sub_tid, &project.stack_pointer_register));
+                        }
+                        if !d.contains_top() {
+                            nontrivial_regs += 1;
+                        }
+                        regs.push(domenc::dd_with(&d, &id_name));
+                    }
+                    None => { has = false; break; }
+                }
+            }
+            if !has {
+                regs.clear();
+            }
+            abs.push(json!({"has": has, "regs": regs}));
+            let e = end_of[&b.tid];
+            endstate.push(matches!(pi.get_node_value(e), Some(NodeValue::Value(_))));
+            // feature tag (classification of the known finding only)
+            for j in &b.term.jmps {
+                if let Jmp::CBranch { condition, .. } = &j.term {
+                    if let Some(state) = pi.get_state_at_jmp_tid(&j.tid) {
+                        let mut eqs = Vec::new();
+                        eq_subexprs(condition, &mut eqs);
+                        let tagged = eqs.iter().any(|(l, r)| {
+                            let (lv, rv) = (state.eval(l), state.eval(r));
+                            match (lv.get_if_unique_target(), rv.get_if_unique_target()) {
+                                (Some((li, _)), Some((ri, _))) => li == ri && state.memory.get_object(li).is_none(),
+                                _ => false,
+                            }
+                        });
+                        let mut vars = Vec::new();
+                        vars_of(condition, &mut vars);
+                        let negstride = vars.iter().any(|v| match state.eval(&Expression::Var((*v).clone())).get_absolute_value() {
+                            Some(iv) => {
+                                let raw = domenc::RawIv::of(iv);
+                                raw.stride >= 2 && raw.start.sign_bit().to_bool()
+                            }
+                            None => false,
+                        });
+                        let mut subs = Vec::new();
+                        subpieces_of(condition, &mut subs);
+                        let widesub = subs.iter().any(|(arg, size)| match state.eval(arg).get_if_absolute_value() {
+                            Some(iv) => !iv.fits_into_size(*size),
+                            None => false,
+                        });
+                        for j2 in &b.term.jmps {
+                            match &j2.term {
+                                Jmp::CBranch { target, .. } | Jmp::Branch(target) => {
+                                    if widesub {
+                                        widesub_succ.insert(target.clone(), true);
+                                    }
+                                    if tagged {
+                                        sameid_succ.insert(target.clone(), true);
+                                    }
+                                    if negstride {
+                                        negstride_succ.insert(target.clone(), true);
+                                    }
+                                }
+                                _ => (),
+                            }
+                        }
+                    }
+                }
+            }
+        }
+        let case = json!({
+            "ev": "case", "fn": index, "seed": seed % 65521, "le": true,
+            "sp": irenc::var(&project.stack_pointer_register),
+            "physregs": physregs.iter().map(irenc::var).collect::<Vec<_>>(),
+            "blocks": sub.term.blocks.iter().map(irenc::blk).collect::<Vec<_>>(),
+            "abs": abs, "endstate": endstate,
+            "ids": ids.values().cloned().collect::<Vec<_>>(),
+            "sameid_succ": sub.term.blocks.iter().map(|b| sameid_succ.contains_key(&b.tid)).collect::<Vec<_>>(),
+            "negstride_succ": sub.term.blocks.iter().map(|b| negstride_succ.contains_key(&b.tid)).collect::<Vec<_>>(),
+            "widesub_succ": sub.term.blocks.iter().map(|b| widesub_succ.contains_key(&b.tid)).collect::<Vec<_>>(),
+            "inits": inits.clone(),
+            "nontrivial_regs": nontrivial_regs,
+            "raw": irgen::program_to_string(program),
+        });
+        (Some(case), false)
+    }));
+    match r {
+        Ok((case, ns)) => Recorded { case, not_stabilized: ns, panic: String::new() },
+        Err(p) => Recorded { case: None, not_stabilized: false, panic: p },
+    }
+}
+
+fn inits_json(inits: &[Vec<(String, u64, u64)>]) -> Value {
+    Value::Array(
+        inits
+            .iter()
+            .map(|f| Value::Array(f.iter().map(|(n, x, s)| json!({"n": n, "v": crate::enc::bv(&bv_u64(*x, *s))})).collect()))
+            .collect(),
+    )
+}
+
+/// location of the last panic of the code under test (recorded by the hook installed in `gen`)
+static LAST_PANIC_LOC: std::sync::Mutex<String> = std::sync::Mutex::new(String::new());
+
+pub fn gen(out: &mut Out, _sub: &str) {
+    // a panic of the analysis is data (counted, with its source location); keep it silent
+    std::panic::set_hook(Box::new(|info| {
+        if let Ok(mut l) = LAST_PANIC_LOC.lock() {
+            *l = info.location().map(|l| format!("{}:{}", l.file(), l.line())).unwrap_or_default();
+        }
+    }));
+    let programs = out.size(160, 3000);
+    let n_inits = 12usize;
+    let mem_cfg = memory_config();
+    let mut rng = Rng::new(out.seed.wrapping_mul(0x0C13_0C13).wrapping_add(13));
+    let knobs = pigen::PiKnobs::default();
+    let (mut skipped, mut panics, mut blocks_total, mut stateless_blocks, mut dropped_blocks) = (0u64, 0u64, 0u64, 0u64, 0u64);
+    let mut panic_samples: Vec<String> = Vec::new();
+    let directed = pigen::directed_programs();
+    for i in 0..programs + directed.len() as u64 {
+        let mut r = rng.fork();
+        // the hand-written programs come first, then the generated ones
+        let program = if (i as usize) < directed.len() { directed[i as usize].1.clone() } else { pigen::gen_function(&mut r, &knobs) };
+        let project = irgen::project_of(program.clone());
+        let regs: Vec<Variable> = project.register_set.iter().cloned().collect();
+        let consts = pigen::constants_of(&program.term.subs[&pigen::sub_tid()]);
+        let inits = inits_json(&pigen::gen_inits(&mut r, &consts, n_inits, &regs));
+        let rec = analyze(&program, &inits, r.next(), i, &mem_cfg);
+        if !rec.panic.is_empty() {
+            panics += 1;
+            if panic_samples.len() < 3 {
+                let loc = LAST_PANIC_LOC.lock().map(|l| l.clone()).unwrap_or_default();
+                panic_samples.push(format!("program {}: {} at {}", i, rec.panic, loc));
+            }
+            continue;
+        }
+        if rec.not_stabilized {
+            skipped += 1;
+            continue;
+        }
+        let case = rec.case.unwrap();
+        blocks_total += case["blocks"].as_array().unwrap().len() as u64;
+        stateless_blocks += case["abs"].as_array().unwrap().iter().filter(|a| !a["has"].as_bool().unwrap()).count() as u64;
+        dropped_blocks += case["abs"].as_array().unwrap().iter().zip(case["endstate"].as_array().unwrap().iter())
+            .filter(|(a, e)| a["has"].as_bool().unwrap() && !e.as_bool().unwrap()).count() as u64;
+        // non-trivial: some register at some block start has a value without the Top flag besides the
+        // stack pointer (i.e. the analysis claims something that can be wrong)
+        let nontrivial = case["nontrivial_regs"].as_u64().unwrap() > case["blocks"].as_array().unwrap().len() as u64;
+        out.emit(vec![case], nontrivial);
+    }
+    out.extra.insert("programs_generated".into(), json!(programs));
+    out.extra.insert("programs_directed".into(), json!(directed.iter().map(|d| d.0).collect::<Vec<_>>()));
+    out.extra.insert("skipped_not_stabilized".into(), json!(skipped));
+    out.extra.insert("pi_panics".into(), json!(panics));
+    out.extra.insert("pi_panic_samples".into(), json!(panic_samples));
+    out.extra.insert("inits_per_program".into(), json!(n_inits));
+    out.extra.insert("blocks_total".into(), json!(blocks_total));
+    out.extra.insert("blocks_without_state".into(), json!(stateless_blocks));
+    out.extra.insert("blocks_state_dropped".into(), json!(dropped_blocks));
+}
+
+/// Re-execute the real pipeline on the program recorded in the case (`raw`) with the recorded inits.
+pub fn replay(run: &[Value], _sub: &str) -> Vec<Value> {
+    let mem_cfg = memory_config();
+    let mut out = Vec::new();
+    for ev in run {
+        if let Some(raw) = ev["raw"].as_str() {
+            let program = irgen::program_from_string(raw);
+            let rec = analyze(&program, &ev["inits"], ev["seed"].as_u64().unwrap_or(1), ev["fn"].as_u64().unwrap_or(0), &mem_cfg);
+            if let Some(c) = rec.case {
+                out.push(c);
+            } else {
+                eprintln!("replay: no result (not stabilized: {}, panic: {})", rec.not_stabilized, rec.panic);
+            }
+        }
+    }
+    out
 }
